@@ -133,6 +133,9 @@ def compare_mirror(res, t, A, B, spA):
 # expected factor of each written variable under the three reversals; None = only |.| compared
 def sign_table(kind):
     twopi = 2 * np.pi
+    if kind == "same":     # two ways of giving the same equilibrium
+        return {k: 1 for k in ("Rxy", "Zxy", "psixy", "dx", "Brxy", "Bzxy", "Bpxy", "Btxy", "Bxy", "hy", "dy", "g11", "g22", "g33", "g_11", "g_22", "g_33",
+                               "J", "g12", "g13", "g23", "g_12", "g_13", "g_23", "pressure", "zShift")}
     if kind == "psi":      # psi -> -psi (reverse_current)
         return {"Rxy": 1, "Zxy": 1, "psixy": -1, "dx": -1, "Brxy": -1, "Bzxy": -1, "Btxy": 1, "Bxy": 1, "hy": 1, "dy": 1, "g11": 1, "g22": 1, "g33": 1,
                 "g_11": 1, "g_22": 1, "g_33": 1}
@@ -225,6 +228,8 @@ def run(res, tier):
     rev_pair("reverse_Bt lsn", "bt", dict(fpol="const"), dict(fpol="const", options={"reverse_Bt": True}))
     rev_pair("fpol->-fpol lsn", "bt", dict(fpol="const"), dict(fpol="negconst"))
     rev_pair("psi_divide_twopi lsn", "twopi", dict(fpol="linear"), dict(fpol="linear", options={"psi_divide_twopi": True}))
+    # the same reversal given as data and as an option must be treated alike by every topology check (connected double null)
+    rev_pair("reverse_current cdn vs negated psi", "same", dict(fpol="linear", psi_sign=-1.0), dict(fpol="linear", options={"reverse_current": True}), geo="cdn")
     if tier == "thorough":
         rev_pair("psi->-psi cdn", "psi", dict(fpol="linear"), dict(fpol="linear", psi_sign=-1.0), geo="cdn")
         rev_pair("reverse_current+Bt udn", "psi", dict(fpol="linear", options={"reverse_Bt": True}), dict(fpol="linear", options={"reverse_current": True, "reverse_Bt": True}), geo="udn")
